@@ -1,12 +1,34 @@
 import UtilModel.Treiber.Model
+import UtilModel.Treiber.LinFlow
 import UtilModel.Core.Monitor
-/-! placeholder, filled below -/
-namespace UtilModel.Treiber
-open UtilModel
+/-!
+# AtomicLIFO — the history-level monitor of C12
 
-/-- trivial monitor (development placeholder) -/
-def monTriv : ObsMonitor Obs Unit where
-  init := ()
-  step := fun _ _ => some ()
+`monC12` is what is cheap to state on a plain history of `Push`/`Pop` calls:
+
+* call ids are allocated in invocation order, responses belong to invoked calls;
+* **no element is returned twice or out of thin air**: whenever a `Pop` returns a non-zero value
+  `v`, fewer `Pop`s have returned `v` so far than `Push(v)` have been *invoked* so far. With the
+  distinct values of the harness: no value is popped twice, and none before its push was invoked.
+
+It is sound (accepts every observable trace of the model, `Props.C12_obs_lifo`) but not the whole
+property. **Full linearizability of an implementation history — LIFO order, real-time order, "zero
+value exactly when empty", no lost element — is decided by trace inclusion in the model:**
+`model.accepts` (the driver) + `Props.lincheck_sound` (= `accepts_sound` + `treiber_refines_stack`).
+The final drain of every harness scenario makes lost elements visible to that check.
+-/
+namespace UtilModel.Treiber
+open UtilModel UtilModel.Lin
+
+def stackFlow : Flow SOp SRes where
+  offered := fun op => match op with
+    | .push v => [v]
+    | .pop => []
+  taken := fun op r => match op, r with
+    | .pop, .val v => if v = 0 then none else some v
+    | _, _ => none
+  seen := fun _ _ => none
+
+def monC12 : ObsMonitor Obs (FlowSt SOp) := (monFlow stackFlow).comap Obs.toH
 
 end UtilModel.Treiber
